@@ -156,8 +156,8 @@ def run(check):
 
     # optional, one-of and or-disabled members in the outputs (the programs of the tag check, read through the result rules)
     from . import c15
-    for j in range(check.pick(80, 600)):
-        g, trig = c15.build(j, check)
+    tagged = [c15.build(j, check) for j in range(check.pick(80, 600))] + c15.matrix_cases()
+    for j, (g, trig) in enumerate(tagged):
         if "direct" not in g["program"].outputs:
             continue
         inp0 = ref.normalise_input(g["program"].input_schema, g["input"])
